@@ -22,6 +22,7 @@ package forwarding
 
 import (
 	"context"
+	"encoding/hex"
 	"fmt"
 
 	hyperlaneutil "github.com/bcp-innovations/hyperlane-cosmos/util"
@@ -112,7 +113,7 @@ func (c *HyperlaneController) HandlePacket(
 		"destination_domain",
 		attr.DestinationDomain,
 		"recipient",
-		hyperlaneutil.HexAddress(attr.Recipient),
+		hex.EncodeToString(attr.Recipient),
 	)
 
 	err = c.ValidateForwarding(ctx, packet.TransferAttributes, attr)
